@@ -316,7 +316,7 @@ OPS = {
             [("fragment", 400, 20000, 30)],
             "TLC enumerates every start-ordered list of <=N cues on grid 0..G with 2 texts x period f in 1..(G+1)/2 "
             "(overlaps, nesting, duplicates, zero gaps included); random driver: <=30 cues, ms values, f bounded so that "
-            "the sweep has <=300 windows. Non-trivial = at least one cue strictly contains a multiple of f."),
+            "there are <=60 cut points. Non-trivial = at least one cue strictly contains a multiple of f."),
     "C11": ("MC_C11.cfg",
             [("unfragment", dict(GEN_G=3, GEN_N=3, GEN_NT=2), dict(GEN_G=4, GEN_N=3, GEN_NT=3)),
              ("fragunfrag", dict(GEN_G=3, GEN_N=3, GEN_NT=2), dict(GEN_G=5, GEN_N=3, GEN_NT=2))],
